@@ -225,6 +225,11 @@ struct Ref {
     sens: Vec<f64>,
 }
 
+thread_local! {
+    /// the model of the running case has an association contribution (iterative solver possible)
+    static ASSOC_MODEL: std::cell::Cell<bool> = const { std::cell::Cell::new(false) };
+}
+
 fn compare(obs: &mut Obs, what: &str, got: &[f64], reference: &Ref) {
     obs.count();
     if got.len() != reference.value.len() {
@@ -237,6 +242,16 @@ fn compare(obs: &mut Obs, what: &str, got: &[f64], reference: &Ref) {
             continue;
         }
         let tol = RTOL * scale.max(u.abs()) + AMP * reference.sens[k];
+        if u.is_nan() != v.is_nan() && ASSOC_MODEL.with(|c| c.get()) {
+            // the iterative cross-association solver returns NaN when it needs more than
+            // max_iter steps; the f64 and dual-number routes see partial densities that differ
+            // by 1 ulp, so at the limit one route converges and the other does not
+            obs.known_or_fail(
+                "C11/association-nonconvergence-flips-with-route",
+                format!("{what}[{k}]: {u:e} vs reference {v:e} (fresh state): one of the two is NaN"),
+            );
+            return;
+        }
         if !((u - v).abs() <= tol) {
             obs.fail(format!("{what}[{k}]: {u:e} vs reference {v:e} (fresh state; tolerance {tol:e})"));
             return;
@@ -258,7 +273,22 @@ pub fn check(case: &Case, obs: &mut Obs) {
         obs.discard("state");
         return;
     };
+    ASSOC_MODEL.with(|c| c.set(case.spec.has_association()));
     if !s0.residual_helmholtz_energy().to_reduced().is_finite() || !s0.dp_dv(TOT).to_reduced().is_finite() {
+        // history probe before discarding: NaN as the first property, finite as a by-product?
+        if let Some(s1) = fresh(&sys) {
+            let a_first = s0.residual_helmholtz_energy().to_reduced();
+            let _ = s1.pressure(Contributions::Residual);
+            let a_after = s1.residual_helmholtz_energy().to_reduced();
+            if a_first.is_nan() && a_after.is_finite() && case.spec.has_association() {
+                obs.known_or_fail(
+                    "C11/association-nonconvergence-flips-with-route",
+                    format!("residual_helmholtz_energy() is NaN as the first property of the state but {a_after:e} after pressure(Residual)"),
+                );
+            } else if a_first.is_nan() != a_after.is_nan() {
+                obs.fail(format!("residual_helmholtz_energy() = {a_first:e} as the first property but {a_after:e} after pressure(Residual)"));
+            }
+        }
         obs.discard("non-finite");
         return;
     }
